@@ -322,11 +322,27 @@ static double elapsed(void)
 int main(int argc, char **argv)
 {
     /* deterministic address space: re-exec once with ASLR off */
+    /* ... and with a canonical environment: glibc keeps the environment on the heap once
+     * setenv() is used, so the number and size of inherited variables would shift heap (and
+     * stack) addresses, and some runs hash addresses (unit handles that are thread handles).
+     * Only the variables this program and its sanitizer / coverage run-times read survive. */
     int pers = personality(0xffffffff);
-    if (pers != -1 && !(pers & ADDR_NO_RANDOMIZE) && !getenv("ABTSIM_NO_REEXEC")) {
-        if (personality(pers | ADDR_NO_RANDOMIZE) != -1) {
-            execv("/proc/self/exe", argv);
-        }
+    if (!getenv("ABTSIM_CANON") && !getenv("ABTSIM_NO_REEXEC")) {
+        static char *envp[64];
+        static const char *keep[] = { "VERIF_", "WL_", "ABTSIM_", "ASAN_OPTIONS=", "UBSAN_OPTIONS=", "LSAN_OPTIONS=", "GCOV_", "LLVM_PROFILE_FILE=" };
+        int n = 0;
+        extern char **environ;
+        for (char **e = environ; *e && n < 60; e++)
+            for (unsigned k = 0; k < sizeof keep / sizeof keep[0]; k++)
+                if (!strncmp(*e, keep[k], strlen(keep[k]))) {
+                    envp[n++] = *e;
+                    break;
+                }
+        envp[n++] = (char *)"ABTSIM_CANON=1";
+        envp[n] = NULL;
+        if (pers != -1 && !(pers & ADDR_NO_RANDOMIZE))
+            personality(pers | ADDR_NO_RANDOMIZE);
+        execve("/proc/self/exe", argv, envp);
     }
     clock_gettime(CLOCK_MONOTONIC, &g_t0);
 #ifdef PR_SET_THP_DISABLE
